@@ -52,7 +52,15 @@ def attribute_lists_validated(prog, chk):
     returns an error for the first malformed attribute (duplicate name, unquoted value)"""
     fr = prog.body("svgdx::events::InputList::from_reader")
     chk.touch(fr)
-    sites = fr.call_sites(lambda c: c.path.endswith("BytesStart::<'a>::attributes") or c.path.endswith("BytesStart::attributes") or (c.path.split("::")[-1] == "attributes" and "BytesStart" in c.inst))
+    is_scan = lambda c: c.path.endswith("BytesStart::<'a>::attributes") or c.path.endswith("BytesStart::attributes") or (c.path.split("::")[-1] == "attributes" and "BytesStart" in c.inst)  # noqa: E731
+    sites = fr.call_sites(is_scan)
+    if not sites:
+        # the scan may live in a helper that from_reader calls with the tag (one level)
+        def helper(c):
+            hb = prog.maybe_body(c.path)
+            return hb is not None and hb.unit == "svgdx-lib" and "BytesStart" in (hb.local_ty(1) or "") and bool(hb.call_sites(is_scan)) and "Result" in (hb.local_ty(0) or "")
+
+        sites = fr.call_sites(helper)
     ok = False
     for (bb, t, c) in sites:
         # an error return is reachable after the scan and before the event is stored
